@@ -167,15 +167,17 @@ def shirokov_degree(ctx):
     from ..astx import ceval, walk_shallow as _ws
     q = "codegen.codegen_shirokov_inv"
     fn = ctx.func(q)
-    assigns = [n for n in _ws(fn) if isinstance(n, _ast.Assign) and len(n.targets) == 1 and un(n.targets[0]) == "n"]
+    assigns = [n for n in _ws(fn) if isinstance(n, _ast.Assign) and len(n.targets) == 1 and isinstance(n.value, _ast.BinOp)
+               and isinstance(n.value.op, _ast.Pow) and isinstance(n.value.left, _ast.Constant) and n.value.left.value == 2]
     if len(assigns) != 1:
         raise Unknown(q, "cannot find the single assignment of the iteration count n", fn)
     expr = assigns[0].value
     for (p_, q_, r_) in ((6, 0, 0), (4, 1, 1), (4, 0, 2), (3, 0, 3), (2, 0, 5), (4, 4, 0), (3, 3, 3)):
         d = p_ + q_ + r_
         c = f"{q}#n,signature=({p_},{q_},{r_})"
-        env = {"alg.d": d, "alg.p": p_, "alg.q": q_, "alg.r": r_, "x.algebra.d": d, "x.algebra.p": p_, "x.algebra.q": q_,
-               "x.algebra.r": r_}
+        env = {}
+        for base in {un(a.value) for a in _ast.walk(expr) if isinstance(a, _ast.Attribute)}:
+            env.update({f"{base}.d": d, f"{base}.p": p_, f"{base}.q": q_, f"{base}.r": r_})
         try:
             got = ceval(expr, env)
         except NoValue as exc:
